@@ -67,7 +67,17 @@ ChordDescOk(r) ==
   /\ \A i \in 1..Len(r.attrs) : LET p == ParseInterval(r.attrs[i].printed) IN
         p.ok /\ AppliedOk(r.attrs[i], root, p.iv, r.sharp)
 
+\* the Degree API: an interval exists iff the quality exists for the number; its size, its notation and the parse-back
+DegreeApiOk(r) ==
+  LET iv == [n |-> r.n, q |-> r.q] IN
+  /\ r.exists = (r.n >= 1 /\ ValidInterval(iv))           \* impossible combinations such as a major fourth are rejected
+  /\ r.exists => /\ r.semitone = Size(iv)
+                  /\ r.printed = PrintInterval(iv)
+                  /\ r.parsedOk /\ r.parsedN = r.n /\ r.parsedSemitone = Size(iv)     \* reads back as the same interval
+                  /\ ParseInterval(r.printed).iv = iv
+
 RecOk(r) == CASE r.kind = "skipped" -> TRUE
+              [] r.kind = "degree" -> DegreeApiOk(r)
               [] r.kind = "describe" -> DescribeOk(r)
               [] r.kind = "notation" -> NotationOk(r)
               [] r.kind = "genattr" -> GenAttrOk(r)
